@@ -37,6 +37,14 @@ func (v Value) Equals(b Value) bool {
 	return !v.Less(b) && !b.Less(v)
 }
 
+// Same reports whether b is the very same value: same kind and same text.
+// Equals is equality under the sort order, which ignores letter case and the
+// spelling of numbers; a value written over one that merely compares equal
+// is still a different value to store.
+func (v Value) Same(b Value) bool {
+	return v.kind == b.kind && v.data == b.data
+}
+
 func (v Value) Kind() Kind {
 	return v.kind
 }
